@@ -140,7 +140,7 @@ struct Gen{
   void cache(){
     if(r.chance(0.35)){ Json& o=add("container"); Json sl=Json::array(); int n=r.range(1,5); for(int i=0;i<n;i++){ int s=pick(p_usable); if(s>=0) sl.push(s); } o["slots"]=sl; o["vs"]=(long long)r.below(100000); return; }
     if(r.chance(0.4)){ add("clear_cache"); return; }
-    Json& o=add("burst"); o["d"]=dimension(); o["n"]=r.chance(0.7)?r.range(33,40):r.range(1,32); o["lifo"]=r.chance(0.5);
+    Json& o=add("burst"); o["d"]=dimension(); o["n"]=r.chance(0.7)?r.range(33,40):r.range(1,32); o["lifo"]=r.chance(0.5); o["refill"]=r.chance(0.5);
   }
   void followup(){
     int m=pick(p_mf); if(m<0){ if(r.chance(0.6)) stmt(true); else copy_move_ctor(); return; }
@@ -190,7 +190,7 @@ struct Gen{
   }
 
   void history(int nops){
-    static const int prof_C08[]={16,10,16,16,5,4,8,5,4,3,3,10};
+    static const int prof_C08[]={16,10,16,16,5,4,8,5,4,6,3,10};
     static const int prof_C09[]={14,4,6,50,5,3,5,5,2,2,2,2};
     static const int prof_C14[]={14,4,6,10,3,3,5,4,4,2,40,5};
     static const int prof_C15[]={14,8,10,14,4,4,8,5,12,8,8,5};
